@@ -385,8 +385,10 @@ class USBResetSequencer(Elaboratable):
             with m.State('IN_HOST_J'):
 
                 # If we've exceeded our minimum chirp time, consider this a valid pattern
-                # bit, and advance in the pattern.
-                with m.If(line_state_time == self._CYCLES_2P5_MICROSECONDS):
+                # bit, and advance in the pattern. (Only if the J is still there: otherwise we
+                # return to AWAIT_HOST_J below, and must not count this J as well as the next one.)
+                with m.If((line_state_time == self._CYCLES_2P5_MICROSECONDS) &
+                          (self.line_state == self._LINE_STATE_FS_HS_J)):
 
                     # If this would complete our third pair, this completes a handshake,
                     # and we've identified a high speed host!
